@@ -83,6 +83,45 @@ def run_case(sim, env, gens):
                          'instruction_that_takes_effect': type(top).__name__ if top is not None else None})
     return viol, spoke, contested
 
+def multi_step_case(seed, k, steps=4):
+    """the same sentence over SEVERAL steps of the real StepSimulation: two or three scripted generators instruct the same vehicles in
+    every step; in every step the instruction of the generator configured LAST must be the one recorded as applied (the order in
+    which generators run is the configured one in every step, not only in the first)"""
+    rng = random.Random(f'multi|{seed}|{k}')
+    base = h3.geo_to_h3(39.7539, -104.9740, 15)
+    cells = sorted(h3.k_ring(base, 3))
+    rng.shuffle(cells)
+    env = ml.mock_env()
+    vehicles = [ml.mock_vehicle_from_geoid(f'v{i}', geoid=cells[i], vehicle_state=Idle.build(f'v{i}')) for i in range(rng.randint(1, 3))]
+    b = ml.mock_base_from_geoid('b0', geoid=cells[6], stall_count=3)
+    sim = ml.mock_sim(vehicles=tuple(vehicles), bases=(b,))
+    far = ml.mock_base_from_geoid('b1', geoid=cells[9], stall_count=3)
+    kinds = ['idle', 'repos_a', 'repos_b']
+    rng.shuffle(kinds)
+    gens = []
+    for g, kind in enumerate(kinds[:rng.randint(2, 3)]):
+        instrs = []
+        for v in vehicles:
+            if g == 0 or rng.random() < 0.8:
+                instrs.append(IdleInstruction(v.id) if kind == 'idle' else RepositionInstruction(v.id, (b if kind == 'repos_a' else far).position.link_id))
+        gens.append(Scripted(g, instrs))
+    step = StepSimulation.from_tuple(tuple(gens))
+    viol = []
+    for n in range(steps):
+        sim, step = step.update(sim, env)
+        for v in vehicles:
+            last = None
+            for g in gens:
+                mine = [i for i in g.instrs if i.vehicle_id == v.id]
+                if mine:
+                    last = mine[-1]
+            got = sim.applied_instructions.get(v.id)
+            if last is not None and got is not None and got != last:
+                viol.append({'step': n + 1, 'vehicle': v.id, 'generators_in_configured_order': [g.name for g in gens],
+                             'last_generator_instruction': repr(last)[:80], 'instruction_recorded_as_applied': repr(got)[:80]})
+                return viol
+    return viol
+
 def engine(res, spec, tier, seed, extended=False):
     t0 = time.time()
     n = 300 if tier == 'quick' else 4000
@@ -98,11 +137,23 @@ def engine(res, spec, tier, seed, extended=False):
             res.cov['distinct_nontrivial'] += 1
         if viol and not [f for f in res.found if f['kind'] == 'wrong_instruction_takes_effect']:
             res.add_found('wrong_instruction_takes_effect', viol[0], {'engine': 'eng_c09', 'seed': seed, 'case': k, 'kind': 'wrong_instruction_takes_effect', 'detail': viol[0]})
+    n_multi = 40 if tier == 'quick' else 400
+    for k in range(n_multi):
+        viol = multi_step_case(seed, k)
+        res.cov['evaluations'] += 1
+        if viol and not [f for f in res.found if f['kind'] == 'wrong_instruction_takes_effect_in_a_later_step']:
+            res.add_found('wrong_instruction_takes_effect_in_a_later_step', viol[0], {'engine': 'eng_c09', 'seed': seed, 'case': k, 'multi': True,
+                                                                                    'kind': 'wrong_instruction_takes_effect_in_a_later_step', 'detail': viol[0]})
     res.notes['eng_c09'] = {'cases': n, 'drivers_that_spoke': spoke, 'driver_vs_generator_contests': contested, 'wall_s': round(time.time() - t0, 1)}
 
 def replayer(payload):
     if payload.get('engine') != 'eng_c09':
         return None
+    if payload.get('multi'):
+        viol = multi_step_case(payload['seed'], payload['case'])
+        for v in viol[:3]:
+            print('reproduced:', json.dumps(v))
+        return bool(viol)
     sim, env, gens = gen_case(payload['seed'], payload['case'])
     viol, _, _ = run_case(sim, env, gens)
     for v in viol[:3]:
